@@ -586,6 +586,13 @@ def run_tree(specs, via="build", default=False):
         elif via == "provider-mapper":
             cfgs = make_configs(specs)
             roots = FGConfigProvider(cfgs, mapper=PermutationMapper(wildcard="R", ignore_case=True)).get_tree()
+        elif via == "provider-mapper-cs":
+            # a caller-chosen CASE-SENSITIVE mapper: the hierarchy must be the embedding order under THAT mapper
+            cfgs = make_configs(specs)
+            roots = FGConfigProvider(cfgs, mapper=PermutationMapper(wildcard="R", ignore_case=False)).get_tree()
+        elif via == "build-cs":
+            cfgs = make_configs(specs)
+            roots = build_config_tree_from_list(cfgs, PermutationMapper(wildcard="R", ignore_case=False))
         elif via == "query":
             # the tree an FGQuery builds for a list: FGQuery hands ITS mapper to the provider
             from fgutils.query import FGQuery
